@@ -11,7 +11,7 @@ from harness import fakeproc
 PROP = "C07"
 LEAN_MODULE = "Ztr.Props.C07"
 THEOREMS = [
-    "Ztr.Channel.C07_roundtrip", "Ztr.Channel.C07_truncation_partial", "Ztr.Channel.C07_spawn_failure",
+    "Ztr.Channel.C07_roundtrip", "Ztr.Channel.C07_truncation", "Ztr.Channel.C07_spawn_failure",
     "Ztr.Channel.C07_noise_after", "Ztr.Channel.C07_no_report", "Ztr.Channel.C07_never_crash", "Ztr.Channel.C07_spoof_witness", "Ztr.Channel.splitLines_joinLines",
     "Ztr.Channel.parseNat_renderNat",
 ]
